@@ -38,6 +38,7 @@ type Step struct {
 	Tag  string   `json:"tag,omitempty"`
 	Out  string   `json:"out,omitempty"`
 	N    int      `json:"n,omitempty"`
+	CT   *string  `json:"ct,omitempty"` // the Content-Type header to use instead of the kind's own choice
 }
 type Scenario struct {
 	Name  string `json:"name"`
@@ -193,6 +194,9 @@ func (r *runner) http(st Step) {
 	case "ok": // every spelling of "JSON in UTF-8"
 		ctype = []string{"application/json", "application/json; charset=utf-8", "application/json;charset=utf8", "Application/JSON", `application/json; charset="utf-8"`,
 			"application/json; foo=bar"}[(len(h)+len(body))%6]
+	}
+	if st.CT != nil {
+		ctype = *st.CT
 	}
 	if abs == nil {
 		abs = []any{}
